@@ -175,13 +175,16 @@ class ClassParser(BaseParser):
                 continue
             if key in exclude_vars:
                 continue
-            if attr is Ellipsis and key in self.fields:
+            inherited = [k for k, f in self.fields.items() if f.attname == key]
+            if attr is Ellipsis and inherited:
                 # class base(Schema):
                 #     f: int
                 # class sub(base):
                 #     f = ...
                 # means that sub schema has dropped field [f] (not declaring the annotation)
-                self.fields.pop(key)
+                # (the table is keyed by the case-folded output name, which may differ from the attribute name)
+                for k in inherited:
+                    self.fields.pop(k)
                 continue
 
             try:
@@ -218,6 +221,11 @@ class ClassParser(BaseParser):
                 )
             field_map[name] = field
 
+        for name, field in field_map.items():
+            for k in [k for k, f in self.fields.items() if f.attname == field.attname and k != name]:
+                # the inherited entry of a re-declared field sits under another key
+                # when its case-insensitivity (or name) changed
+                self.fields.pop(k)
         self.fields.update(field_map)
 
     def generate_from_bases(self):
